@@ -212,7 +212,22 @@ def run_tour(ctx, rng, world):
                 getattr(s, "write%d" % w)(lba, 2, data)
                 shadow[lba], shadow[lba + 1] = bytes(data[:tgt.bs]), bytes(data[tgt.bs:])
                 for pl in list(shadow)[-4:]:
-                    got = bytes(getattr(s, "read%d" % (16 if pl >= 1 << 32 else rng.choice([10, 12, 16])))(pl, 1).datain)
+                    meth = getattr(s, "read%d" % (16 if pl >= 1 << 32 else rng.choice([10, 12, 16])))
+                    if rng.random() < 0.4:
+                        # the read-back of an error path: issued while another exception is being handled (inside an except block,
+                        # or in a finally clause during unwinding)
+                        ctx.count("reads_inside_exception_handlers")
+                        try:
+                            try:
+                                raise KeyError("journal entry missing")
+                            finally:
+                                got_f = bytes(meth(pl, 1).datain)
+                        except KeyError:
+                            got = bytes(meth(pl, 1).datain)
+                        if got_f != got:
+                            got = got_f if got_f != shadow[pl] else got
+                    else:
+                        got = bytes(meth(pl, 1).datain)
                     ctx.count("reads_compared")
                     if got != shadow[pl]:
                         ctx.fail("C12:tour.read_returns_wrong_data", "unit %d block %#x holds %r, last written %r" % (u, pl, got[:24], shadow[pl][:24]), wit)
